@@ -149,12 +149,9 @@ scanLoop:
 				// If there is not, just let Unquote generate an error.
 				break scanLoop
 			}
-			if input[i+1] == '"' {
-				// Skip escaped quote.
-				i += 2
-			} else {
-				i++
-			}
+			// Skip escaped character, whatever it is: the backslash of
+			// an escaped backslash must not escape the following quote.
+			i += 2
 		case '"':
 			// We are done, unquote it.
 			input = input[:i+1] // +1 to capture ending quote too
